@@ -183,6 +183,13 @@ class CallGraph:
                     if t0.startswith("mut "):
                         t0 = t0[4:]
                 out += impls("fmt", t0, trn)
+        if name == "collect_str" and g:
+            # Serializer::collect_str::<T>(&value) formats the value with its Display impl
+            for ga in g:
+                t0 = ga
+                while t0.startswith("&"):
+                    t0 = t0[1:].lstrip()
+                out += impls("fmt", t0, "std::fmt::Display")
         if callee["crate"] in ("serde_json", "serde", "serde_core"):
             # serde entry points: every local Serialize / Deserialize impl of a type named in the generic args
             n = name.lower()
